@@ -67,6 +67,7 @@ func rulesC17(w *World, r *Report) {
 	}
 	// factories: the functions passed to a constructor
 	isFactory := map[*ssa.Function]bool{}
+	factorySites := map[*ssa.Function]bool{} // functions holding a constructor call whose factory was resolved
 	for _, fn := range w.SrcFuncs() {
 		for _, cs := range w.callSitesIn(fn) {
 			sc := cs.call.Call.StaticCallee()
@@ -88,6 +89,9 @@ func rulesC17(w *World, r *Report) {
 				fs, ok := w.funcValuesOf(a)
 				if !ok {
 					r.undecided("C17.R3 pooled value has a single owner", fmt.Sprintf("%s · %s · factory argument #%d", fnName(fn), cs.key(), ai), w.instrPos(cs.call), "the function handed to the pool constructor is not statically known: its freshness cannot be examined")
+				}
+				if ok && len(fs) > 0 {
+					factorySites[fn] = true
 				}
 				for _, f := range fs {
 					if !isFactory[f] {
@@ -244,7 +248,25 @@ func rulesC17(w *World, r *Report) {
 		ok, fact := w.returnsFresh(fc, 0)
 		r.add("C17.R3 pooled value has a single owner", fnName(fc)+" · factory result is fresh", w.pos(fc.Pos()), ok, fact)
 	}
-	r.floor("C17.R3 factories", len(factories), 3)
+	// floor: the exported pool constructors of the package (encoder, decoder,
+	// serializer pool) each reach, through static calls, a constructor call
+	// whose factory was resolved and examined above.  Counting entry points
+	// served instead of function literals: one literal parameterised by a kind
+	// constant serves all three (its every return is examined by returnsFresh).
+	served := 0
+	for _, fn := range w.SrcFuncs() {
+		if fn.Signature.Recv() != nil || fn.Object() == nil || !fn.Object().Exported() || fn.Parent() != nil {
+			continue
+		}
+		for g := range w.reachStaticPkg(fn) {
+			if factorySites[g] {
+				served++
+				break
+			}
+		}
+	}
+	r.floor("C17.R3 factories", served, 3)
+	r.floor("C17.R3 factory functions examined", len(factories), 1)
 }
 
 // returnsFresh: every return of fn yields a value allocated during the call
